@@ -55,8 +55,9 @@ extern int mpt_dispatch_hash(MPT_STRUCT(dispatch) *disp, MPT_STRUCT(event) *ev)
 	}
 	/* continous data */
 	if (msg.used >= (size_t) len) {
-		if (!mt.arg && !((const char *) msg.base)[len-1]) {
-			--len;
+		/* terminating zero is not part of command text (any separator) */
+		if (!((const char *) msg.base)[len-1] && !--len) {
+			return MPT_event_fail(ev, MPT_ERROR(MissingData), MPT_tr("unable to get text command"));
 		}
 		ev->id = mpt_hash(msg.base, len);
 	}
@@ -69,8 +70,8 @@ extern int mpt_dispatch_hash(MPT_STRUCT(dispatch) *disp, MPT_STRUCT(event) *ev)
 		if (mpt_message_read(&msg, len, buf) != (size_t) len) {
 			MPT_ABORT("conflicting message length");
 		}
-		if (!mt.arg && !buf[len-1]) {
-			--len;
+		if (!buf[len-1] && !--len) {
+			return MPT_event_fail(ev, MPT_ERROR(MissingData), MPT_tr("unable to get text command"));
 		}
 		ev->id = mpt_hash(buf, len);
 	}
